@@ -99,6 +99,7 @@ func runWriterHistory(c *WriterCase, cv *cov, hooks *writerHooks) (v *evid.Viola
 	// bytes writer: what a Flush published through the target now belongs to the caller; later operations
 	// of the writer must not change it
 	var published, publishedWant []byte
+	var pubSpare []byte // spare capacity of the slice published by the latest Flush of a bytes writer
 	flushes := 0
 	unflushed := len(initial)
 	var sawGrowth, sawLazyGrowth, sawFailThenCalls, sawMultiFlush bool
@@ -231,6 +232,9 @@ func runWriterHistory(c *WriterCase, cv *cov, hooks *writerHooks) (v *evid.Viola
 						}
 					}
 				}
+				for i := range pubSpare {
+					pubSpare[i] = 0xCD // the caller appends to the slice an earlier Flush gave back
+				}
 				before := len(sink.Writes)
 				wasFailed := sink.Failed
 				err := w.Flush()
@@ -270,6 +274,11 @@ func runWriterHistory(c *WriterCase, cv *cov, hooks *writerHooks) (v *evid.Viola
 						v = evid.Failf("step %d first Flush of a bytes writer: target has %d bytes, want initial(%d)+written(%d); first difference at %d", step, len(target), len(initial), len(exp)-len(initial), firstDiff(target, exp))
 						return
 					}
+					// a later Flush delivers what was written since the previous one, once, through the same target
+					if flushes > 0 && len(exp) > 0 && !bytes.Equal(target, exp) {
+						v = evid.Failf("step %d Flush number %d of a bytes writer: the target holds %d bytes, the %d bytes written since the previous Flush were expected (first difference at %d)", step, flushes+1, len(target), len(exp), firstDiff(target, exp))
+						return
+					}
 				} else {
 					var got []byte
 					for _, g := range sink.Writes[before:] {
@@ -287,6 +296,14 @@ func runWriterHistory(c *WriterCase, cv *cov, hooks *writerHooks) (v *evid.Viola
 				if c.Bytes && len(exp) > 0 {
 					published = target // alias, on purpose
 					publishedWant = append([]byte(nil), target...)
+				}
+				if c.Bytes {
+					// the target slice, with its capacity, is the caller's again: the caller may append to it,
+					// now and at any later time (it is done again right before every later Flush)
+					pubSpare = target[len(target):cap(target)]
+					for i := range pubSpare {
+						pubSpare[i] = 0xCC
+					}
 				}
 				if flushes > 0 {
 					sawMultiFlush = true
@@ -574,5 +591,58 @@ func TestC05_Huge(t *testing.T) {
 	}
 	rec.Merge(bt)
 	rec.Sample(WriterCase{Bytes: true, InitLen: 3, InitCap: 64, Ops: []WOp{{"malloc", 1000}, {"writebin", 1<<24 + 1}, {"flush", 0}}})
+	rec.SetExhaustive()
+}
+
+// TestC05_LongLived: one writer used for thousands of write/Flush rounds of constant size.
+func TestC05_LongLived(t *testing.T) {
+	rec := evid.New("C05", "c05_long_lived", "enumeration: one writer (stream-backed and bytes-backed over targets of capacity 0, 64 and 4096) used for 2300 rounds of {Malloc n (filled lazily every third round); WriteBinary m; Flush} with (n, m) in {(100, 40), (5000, 0), (3, 9000)}; after every operation the region model, WrittenLen and - for bytes writers - the bytes published by the previous Flush are checked; distinct by construction")
+	defer rec.Flush()
+	type job struct {
+		n, m, cap int
+		bw        bool
+	}
+	var jobs []job
+	for _, nm := range [][2]int{{100, 40}, {5000, 0}, {3, 9000}} {
+		jobs = append(jobs, job{nm[0], nm[1], 0, false})
+		for _, cp := range []int{0, 64, 4096} {
+			jobs = append(jobs, job{nm[0], nm[1], cp, true})
+		}
+	}
+	var failed bool
+	lock := make(chan struct{}, 1)
+	parallelFor(len(jobs), func(i int, b *evid.Batch) {
+		if failed {
+			return
+		}
+		j := jobs[i]
+		var ops []WOp
+		for r := 0; r < 2300; r++ {
+			k := "malloc"
+			if r%3 == 2 {
+				k = "lazy"
+			}
+			ops = append(ops, WOp{k, j.n})
+			if j.m > 0 {
+				ops = append(ops, WOp{"writebin", j.m})
+			}
+			ops = append(ops, WOp{"flush", 0})
+		}
+		c := WriterCase{Bytes: j.bw, InitCap: j.cap, NilInit: j.cap == 0, Ops: ops}
+		var cv cov
+		v := checkWriterCase(c, &cv)
+		b.Evals++
+		b.Distinct++
+		b.Nontrivial++
+		if v != nil {
+			lock <- struct{}{}
+			if !failed {
+				failed = true
+				failEnum(t, rec, "c05_writer_history", WriterCase{Bytes: j.bw, InitCap: j.cap, NilInit: j.cap == 0, Ops: ops[:9]}, evid.Failf("writer used for 2300 rounds of {Malloc %d; WriteBinary %d; Flush} (bytes-backed: %v, target capacity %d): %s", j.n, j.m, j.bw, j.cap, v.Msg))
+			}
+			<-lock
+		}
+	}, rec)
+	rec.Sample(map[string]interface{}{"rounds": 2300, "malloc": 100, "writebin": 40, "bytes_writer": true, "target_cap": 4096})
 	rec.SetExhaustive()
 }
